@@ -1098,3 +1098,13 @@ PROPS["C14"]["verus_units"] = list(PROPS["C14"].get("verus_units", [])) + ["free
 PROPS["C14"]["claim"] = PROPS["C14"]["claim"] + " Free list, unbounded (Verus; any list length, with the in-memory stack of multitree tables): next_free reuses the list head and continues the list with the slot it links to, or hands out the fill mark and advances it; clear_slot turns the slot into a tombstone linking to the previous head and makes it the head, writing no other slot; both keep the stack mirroring the on-disk list (top = head, every slot links to the one below) and mark the header dirty."
 PROPS["C06"]["verus_units"] = list(PROPS["C06"].get("verus_units", [])) + ["free_list"]
 PROPS["C06"]["claim"] = PROPS["C06"]["claim"] + " Released storage is reusable (Verus, unbounded): a slot freed by clear_slot is the next one next_free hands out, and the list behind it is intact (unit free_list)."
+
+# ---------------------------------------------------------------- U76 (Verus: what is flushed before logs are reclaimed, unbounded over tables / columns)
+UNIT_META["flush_all"] = {"functions": ["column::HashColumn::flush (fragment: after taking the table lock)", "column::Tables::get_ref_count", "db::DbInner::clean_all_logs"],
+                          "assumes": ["evidence encoding: `synced(t)` is an uninterpreted predicate only a successful flush (msync) of that table / column establishes; tables are opaque values, so the postcondition needs a flush of every one of them",
+                                      "the guards `self.tables.read()` / `self.reindex.read()` are parameters of the wrapper; loops name their iterators (listed rewrites)",
+                                      "Log::clean_logs requires every column synced (its contract; U61 covers what it does to the files)"]}
+for _p in ("C12", "C03"):
+    PROPS[_p]["verus_units"] = list(PROPS[_p].get("verus_units", [])) + ["flush_all"]
+PROPS["C12"]["claim"] = PROPS["C12"]["claim"] + " Unbounded (Verus, any number of value tables, queued tables and columns; evidence encoding): HashColumn::flush syncs the current index, every value table, the reference-count table and every index / reference-count table still queued for migration; DbInner::clean_all_logs flushes every column before it asks the log to reclaim a file."
+PROPS["C12"]["technique"] = PROPS["C12"]["technique"] + "; Verus contracts on HashColumn::flush (fragment) and DbInner::clean_all_logs"
